@@ -44,7 +44,9 @@ def render_vb(kind, minx, miny, w, h, variant):
     if kind == "empty":
         return ["", "   "][variant % 2]
     if kind == "non_numeric":
-        return ["%d %d abc %d" % (minx, miny, h), "a b c d", "%d %d %d px" % (minx, miny, w), "0 0 1e 5"][variant % 4]
+        return ["%d %d abc %d" % (minx, miny, h), "a b c d", "%d %d %d px" % (minx, miny, w), "0 0 1e 5",
+                "%d %d %dpx %d" % (minx, miny, w, h), "%dpx %d %d %d" % (minx, miny, w, h), "%d %d %d %dmm" % (minx, miny, w, h),
+                "%d %d %d%% %d" % (minx, miny, w, h)][variant % 8]          # a viewBox is four NUMBERS: a length with a unit is not one
     if kind == "zero_width":
         w = 0
     if kind == "zero_height":
@@ -154,7 +156,13 @@ def run(ctx):
         w, h = rng.randint(1, S), rng.randint(1, S)
         W, H = rng.randint(1, S), rng.randint(1, S)
         k = rng.random()
-        if k < 0.15:
+        if k < 0.08:
+            # aspect ratios that differ by a hair (1/(w*m)): which axis fills the page is decided by an exact comparison, not a tolerant one
+            m = rng.choice([7, 19, 40, 60])
+            W, H = w * m, h * m + rng.choice([-1, 1])
+            if H < 1:
+                H = h * m + 1
+        elif k < 0.15:
             W, H = w * rng.randint(1, 3), h * rng.randint(1, 3)        # equal / simply related aspect
         elif k < 0.25:
             W, H = h, w
@@ -176,7 +184,7 @@ def run(ctx):
     ctx.stage("V", kind="code->spec", events=nv, rejected=rej)
     ctx.trusted += ["TLC 1.8", "Rat.tla", "harness rendering of the attribute text variants and float-vs-rational comparison (rel 1e-12 / abs 1e-9*scale)", "vlib parser"]
     ctx.assumptions += ["viewBox/document sizes are integers times an exact dyadic factor (1, 1/8, 3/8, 5/2; the spec's exact rationals scale homogeneously); the result is judged through the map x -> (x+o)*s, not field by field",
-                        "unknown align words, more than four viewBox numbers and units inside the viewBox are outside the statement"]
+                        "unknown align words and more than four viewBox numbers are outside the statement"]
     return ctx.finish(
         rule="G: every (min-x,min-y,w,h,W,H) x {none + 9 aligns} x {meet,slice,absent} of the TLC universe plus 14 malformed kinds (each also with none and slice), each rendered in "
              "2-3 of 112 variants (case incl. mixed, 7 separators incl. tab/newline, defer, leading space, number format, 4 non-integer size factors; all 112 for a fifth of the malformed vectors); V: random integers up to 1000; "
